@@ -4,13 +4,23 @@ From Coq Require Import Bool List NArith ZArith Lia.
 From M Require ParamErr.
 From M Require ListWs.
 From M Require Tie.
+From M Require ParamList.
+From M Require ArrayRoundTrip.
+From M Require ArrayReaders.
+From M Require EndToEnd.
+From M Require ArrayRoundTrip.
 From M Require DecSpec.
+From M Require HdrSpec.
 From M Require LexBounds.
 From M Require LexModel.
+From M Require ListWs.
 From M Require MoreSpecs.
 From M Require NumList.
+From M Require ParamList.
 From M Require ParserModel.
 From M Require SimpleSpecs.
+From M Require UnitFull.
+From M Require UnitSpec.
 Import ListNotations.
 
 Module T_param_bool_fail. Import ParamErr. Local Open Scope bool_scope. Local Open Scope Z_scope.
@@ -163,4 +173,54 @@ Theorem C05_tie_bool_names :
 Proof. exact (@Tie.tie_bool_names). Qed.
 End T_tie_bool_names.
 Definition C05_tie_bool_names := @T_tie_bool_names.C05_tie_bool_names.
+
+Module T_parameter_item. Import ParamList. Local Open Scope bool_scope. Local Open Scope Z_scope.
+Import LexModel LexBounds DecSpec MoreSpecs NumList SimpleSpecs ListWs ParserModel. Local Open Scope Z_scope.
+Local Open Scope Z_scope.
+Theorem C05_parameter_item :
+  forall items k w0 a w1 c m,
+  Forall item_ok items -> nth_error items k = Some (w0, a, w1) -> at_item c items k ->
+  exists c', parameter c m = (c', true, {| ty := T_DECIMAL; ptr := pd_off c + item_off items k + Z.of_nat (length w0); len := Z.of_nat (length a) |}) /\
+             at_item c' items (S k) /\ c' = upd_in c (Z.of_nat (S k)) (item_off items (S k) - 1).
+Proof. exact (@ParamList.parameter_item). Qed.
+End T_parameter_item.
+Definition C05_parameter_item := @T_parameter_item.C05_parameter_item.
+
+Module T_read_uint_array. Import ArrayRoundTrip. Local Open Scope bool_scope. Local Open Scope Z_scope.
+Import LexModel LexBounds DecSpec MoreSpecs NumList SimpleSpecs ListWs ParserModel ParamList. Local Open Scope Z_scope.
+Local Open Scope Z_scope.
+Theorem C05_read_uint_array :
+  forall items n c m,
+  Forall uint_item items -> items <> [] -> at_item c items 0 -> tail_ok c -> n <> O ->
+  exists c', param_array n (array_reader 14) c m [] = (c', false, map value_of (firstn n items)) /\ (exists ic pos, c' = upd_in c ic pos) /\
+             at_item c' items (Nat.min n (length items)).
+Proof. exact (@ArrayRoundTrip.read_uint_array). Qed.
+End T_read_uint_array.
+Definition C05_read_uint_array := @T_read_uint_array.C05_read_uint_array.
+
+Module T_array_reader_result. Import ArrayReaders. Local Open Scope bool_scope. Local Open Scope Z_scope.
+Import ParserModel. Local Open Scope Z_scope.
+Local Open Scope Z_scope.
+Theorem C05_array_reader_result :
+  forall ty cap c m,
+  let '(c1, m1, vals) := param_array (Z.to_nat cap) (array_reader ty) c m [] in
+  negb m1 = negb m || (negb (Z.to_nat cap =? 0)%nat && snd (fst (array_reader ty c m))).
+Proof. exact (@ArrayReaders.array_reader_result). Qed.
+End T_array_reader_result.
+Definition C05_array_reader_result := @T_array_reader_result.C05_array_reader_result.
+
+Module T_message_reads_array. Import EndToEnd. Local Open Scope bool_scope. Local Open Scope Z_scope.
+Import LexModel LexBounds DecSpec MoreSpecs NumList SimpleSpecs ListWs HdrSpec UnitSpec UnitFull ParserModel ParamList ArrayRoundTrip. Local Open Scope Z_scope.
+Local Open Scope Z_scope.
+Theorem C05_message_reads_array :
+  forall c d lead m1 ms (q:bool) ws1 items hdr l pat tag cap m,
+  Mnem m1 -> Forall Mnem ms -> ws1 <> [] -> all isws ws1 -> Forall uint_item items -> items <> [] -> first_tight items ->
+  hdr = header_text lead m1 ms ++ (if q then [63%N] else []) ->
+  l = hdr ++ ws1 ++ list_text items ++ [10%N] ->
+  mem c = l -> find_cmd c hdr = Some (pat, tag, [PARR 14 cap m]) -> (length items <= Z.to_nat cap)%nat ->
+  exists c', scpi_parse c (Z.of_nat (length l)) d = (c', true) /\
+    trace c' = EvP 14 true (map value_of items) :: EvH tag hdr :: trace c /\ queue c' = queue c /\ mem c' = mem c.
+Proof. exact (@EndToEnd.message_reads_array). Qed.
+End T_message_reads_array.
+Definition C05_message_reads_array := @T_message_reads_array.C05_message_reads_array.
 
